@@ -15,7 +15,7 @@ class Fp:
     def sub(self, a, b): return (a - b) % self.p
     def neg(self, a): return (-a) % self.p
     def mul(self, a, b): return a * b % self.p
-    def inv(self, a): return pow(a, self.p - 2, self.p)
+    def inv(self, a): return pow(a, -1, self.p) if a % self.p else 0
     def co(self, a): return [a]
     def el(self, c): return c[0] % self.p
     def rand(self, rng): return rng.randrange(self.p)
@@ -66,6 +66,17 @@ class Cubic:
         return (B.add(m(a[0], b[0]), m(nr, B.add(m(a[1], b[2]), m(a[2], b[1])))),
                 B.add(B.add(m(a[0], b[1]), m(a[1], b[0])), m(nr, m(a[2], b[2]))),
                 B.add(B.add(m(a[0], b[2]), m(a[1], b[1])), m(a[2], b[0])))
+
+    def inv(self, a):
+        B, nr = self.B, self.nr
+        m = B.mul
+        t0 = B.sub(m(a[0], a[0]), m(nr, m(a[1], a[2])))
+        t1 = B.sub(m(nr, m(a[2], a[2])), m(a[0], a[1]))
+        t2 = B.sub(m(a[1], a[1]), m(a[0], a[2]))
+        n = B.inv(B.add(m(a[0], t0), m(nr, B.add(m(a[2], t1), m(a[1], t2)))))
+        return (m(t0, n), m(t1, n), m(t2, n))
+
+    def key(self, a): return self.B.key(a[2]) + self.B.key(a[1]) + self.B.key(a[0])   # Ord: last coordinate first
 
     def co(self, a): return self.B.co(a[0]) + self.B.co(a[1]) + self.B.co(a[2])
 
@@ -124,6 +135,8 @@ def fsqrt(F, a):
     p = F.p
     if F.deg == 1:
         return sqrt_p(a, p)
+    if F.deg != 2:
+        return sqrt_generic(F, a)
     a0, a1 = a
     nr = F.nr
     if a1 == 0:
@@ -143,3 +156,37 @@ def fsqrt(F, a):
             if F.mul((x0, x1), (x0, x1)) == (a0 % p, a1 % p):
                 return (x0, x1)
     return None
+
+
+_NONRES = {}
+
+
+def sqrt_generic(F, a):
+    """Tonelli-Shanks in any of the fields above (used for Fp3)"""
+    if F.is0(a):
+        return F.zero()
+    q = F.p ** F.deg
+    one = F.one()
+    if fpow(F, a, (q - 1) // 2) != one:
+        return None
+    t, s = q - 1, 0
+    while t % 2 == 0:
+        t //= 2; s += 1
+    kz = (F.p, F.deg, str(F.nr))
+    if kz not in _NONRES:
+        import random
+        rr = random.Random(7)
+        while True:
+            z = F.rand(rr)
+            if not F.is0(z) and fpow(F, z, (q - 1) // 2) != one:
+                break
+        _NONRES[kz] = fpow(F, z, t)
+    m, c, tt, r = s, _NONRES[kz], fpow(F, a, t), fpow(F, a, (t + 1) // 2)
+    while tt != one:
+        i, t2 = 0, tt
+        while t2 != one:
+            t2 = F.mul(t2, t2); i += 1
+        b = fpow(F, c, 1 << (m - i - 1))
+        m, c = i, F.mul(b, b)
+        tt, r = F.mul(tt, c), F.mul(r, b)
+    return r
